@@ -31,9 +31,11 @@ TEXTS = [
     ('bs-html-safe', 'a\\u0027b\\u003cc\\u003ed\\u0026e'), ('bs-named', 'bullet\\N{BULLET} oct\\101 nul\\0 hex\\x41'),
     ('bs-json', 'slash\\/ b\\b f\\f r\\r U\\U0001F600'),
     # characters that look like nothing: zero width (no-break) space, joiners, soft hyphen, a direction mark, an astral character
+    # what looks like a comment, on the first and on later lines of a text; an unbalanced apostrophe before it
+    ('dashes', 'rule -- first\n   -- second floor --\nthird --> x \' -- y\n--'),
     ('invisible', 'k\ufeffB z\u200bw j\u200dj s\u00adh r\u200fl a\U0001F600a'),
 ]
-LAYOUT_NAMES = ('multiline', 'crlf', 'bare-cr', 'tab', 'lead-trail', 'bs-trailing', 'triple-apostrophe')
+LAYOUT_NAMES = ('multiline', 'crlf', 'bare-cr', 'tab', 'lead-trail', 'bs-trailing', 'triple-apostrophe', 'dashes')
 FRAGMENTS = ['\\', '\\n', "'''", '\n', ' ', 'x' * 80, '-', '\r\n', '{{', '%']
 
 # slot -> (declaration kind, field in the spec, JSON key or path, pysnmp accessor, gated by genTexts)
